@@ -8,6 +8,7 @@ package vsync
 
 import (
 	"sync"
+	"time"
 	"unsafe"
 
 	"github.com/irai/packet/verifshim/vsched"
@@ -32,12 +33,28 @@ func (m *Mutex) Lock() {
 	active := vsched.Active()
 	vsched.Lock(uintptr(unsafe.Pointer(m)))
 	if !active {
-		m.real().Lock()
+		plainAcquire(m.real().TryLock, "Mutex.Lock")
 		return
 	}
 	if !m.real().TryLock() {
 		m.mu = sync.Mutex{} // stale lock left behind by a panic in an earlier execution
 		m.mu.Lock()
+	}
+}
+
+// plainAcquire acquires a lock outside the controlled scheduler (sequential E-input harnesses). Such a harness has one
+// goroutine driving the library; a lock that stays unavailable for 5 seconds of real time was leaked by an earlier call
+// (a return path without Unlock): panicking reports it at once instead of leaving the worker to its hang watchdog.
+func plainAcquire(try func() bool, what string) {
+	if try() {
+		return
+	}
+	deadline := time.Now().Add(5 * time.Second)
+	for !try() {
+		if time.Now().After(deadline) {
+			panic("vsync: " + what + ": the lock was not released for 5s: it is held forever (leaked by an earlier call)")
+		}
+		time.Sleep(200 * time.Microsecond)
 	}
 }
 
@@ -65,7 +82,7 @@ func (m *RWMutex) Lock() {
 	vsched.LockAnnounce(id)
 	vsched.Lock(id)
 	if !active {
-		m.real().Lock()
+		plainAcquire(m.real().TryLock, "RWMutex.Lock")
 		return
 	}
 	if !m.real().TryLock() {
@@ -89,7 +106,7 @@ func (m *RWMutex) RLock() {
 	active := vsched.Active()
 	vsched.RLock(uintptr(unsafe.Pointer(m)))
 	if !active {
-		m.real().RLock()
+		plainAcquire(m.real().TryRLock, "RWMutex.RLock")
 		return
 	}
 	if !m.real().TryRLock() {
